@@ -256,8 +256,8 @@ pub fn run(ctx: Ctx) -> ! {
     if let Some(case) = ctx.read_replay_case() {
         replay(ctx, case);
     }
-    // thorough: the full alphabet at depth 3 and the core alphabet at depth 4 are both explored
-    let plan: Vec<(bool, usize)> = if ctx.quick() { vec![(false, 3)] } else { vec![(true, 3), (false, 4)] };
+    // thorough: the full alphabet at depth 3 and the core alphabet at depth 5 are both explored
+    let plan: Vec<(bool, usize)> = if ctx.quick() { vec![(false, 3)] } else { vec![(true, 3), (false, 5)] };
     let mut total = BfsStats::default();
     let mut exhaustive = true;
     let mut table = vec![];
@@ -272,7 +272,7 @@ pub fn run(ctx: Ctx) -> ! {
         let commits: Vec<Commit> = alphabet(*full);
         for (tag, base_commit) in bases() {
             let m = M14Offset { inner: M14::new(&base_commit, commits.clone()), offset: offsets[pi] };
-            let wall_cap = ctx.pick(40.0, 420.0);
+            let wall_cap = ctx.pick(40.0, 170.0);
             let s = bfs(&ctx, &m, tag, *depth, 40_000_000, wall_cap);
             if s.capped {
                 exhaustive = false;
